@@ -3,6 +3,9 @@
 //   L  a literal becomes a call to a fresh function returning it
 //   B  a pure subexpression is bound to a fresh const just before the statement using it
 //   C  a never-reassigned `let` becomes `const`
+//   V  a variable that is the operand of a unary minus, a cast or a binary operator in a
+//      side-effect-free statement is first copied into a fresh `let` (what the compiler
+//      remembers about the variable itself is then not what the operator sees)
 //   W  a run of statements of a block (not holding a value return) is wrapped in `if true { }`
 // Base and variant must be treated the same (accepted/rejected, except the documented
 // "fixed array index must be a compile-time constant" rejection) and print the same.
@@ -135,6 +138,106 @@ func variants(p *fl.Program, quick bool) []variant {
 		}})
 		if done {
 			out = append(out, variant{"B", i, q, note})
+		}
+	}
+	// ---- V
+	{
+		// scalar variables with one declared type
+		vt := map[string]fl.Type{}
+		bad := map[string]bool{}
+		note := func(n string, t fl.Type) {
+			if _, ok := t.(fl.TInt); !ok || t == nil {
+				bad[n] = true
+				return
+			}
+			if o, ok := vt[n]; ok && o != t {
+				bad[n] = true
+			}
+			vt[n] = t
+		}
+		for _, f := range p.Funcs {
+			for _, pa := range f.Params {
+				note(pa.Name, pa.T)
+			}
+		}
+		fl.Walk(p, fl.Visitor{Block: func(list *[]fl.Stmt) {
+			for _, st := range *list {
+				if l, ok := st.(*fl.Let); ok {
+					note(l.Name, l.T)
+				}
+			}
+		}})
+		pureStmt := func(st fl.Stmt) bool {
+			switch x := st.(type) {
+			case *fl.Assign:
+				return fl.Pure(x.RHS)
+			case *fl.OpAssign:
+				return fl.Pure(x.RHS)
+			case *fl.Let:
+				return x.Init != nil && fl.Pure(x.Init)
+			case *fl.Print:
+				return fl.Pure(x.X)
+			}
+			return false
+		}
+		operand := func(e fl.Expr) *fl.Expr {
+			var slot *fl.Expr
+			switch x := e.(type) {
+			case *fl.Un:
+				slot = &x.X
+			case *fl.Cast:
+				slot = &x.X
+			case *fl.Bin:
+				if quick {
+					return nil
+				}
+				slot = &x.L
+			}
+			if slot == nil {
+				return nil
+			}
+			if v, ok := (*slot).(*fl.Var); ok && vt[v.Name] != nil && !bad[v.Name] {
+				return slot
+			}
+			return nil
+		}
+		isSite := func(e fl.Expr, role string, list *[]fl.Stmt, at int) bool {
+			return role != "place" && role != "pattern" && role != "const-init" && operand(e) != nil && pureStmt((*list)[at])
+		}
+		nV := 0
+		fl.Walk(p, fl.Visitor{Expr: func(slot *fl.Expr, list *[]fl.Stmt, at int, role string) {
+			if isSite(*slot, role, list, at) {
+				nV++
+			}
+		}})
+		for i := 0; i < nV; i++ {
+			q := fl.CloneProgram(p)
+			n := 0
+			done := false
+			var note string
+			fl.Walk(q, fl.Visitor{Expr: func(slot *fl.Expr, list *[]fl.Stmt, at int, role string) {
+				if done || !isSite(*slot, role, list, at) {
+					return
+				}
+				if n == i {
+					uniq++
+					name := fmt.Sprintf("copy_%d", uniq)
+					op := operand(*slot)
+					v := (*op).(*fl.Var)
+					note = "copied " + v.Name + " under " + fl.X(*slot)
+					bind := &fl.Let{Name: name, T: vt[v.Name], Init: fl.V(v.Name)}
+					*op = fl.V(name)
+					nl := append([]fl.Stmt{}, (*list)[:at]...)
+					nl = append(nl, bind)
+					nl = append(nl, (*list)[at:]...)
+					*list = nl
+					done = true
+				}
+				n++
+			}})
+			if done {
+				out = append(out, variant{"V", i, q, note})
+			}
 		}
 	}
 	// ---- C
